@@ -150,9 +150,24 @@ def check_packaged(case) -> Res:
     return Res("ok" if not viol else "problems", nontrivial=name, violations=viol)
 
 
+def own_rule_names():
+    """every rule name the compiler itself defines for a neutral schema (with envelope), read from its output at run time: a field
+    whose name sanitises to one of them is the collision case, whatever rules a later compiler version adds"""
+    from octave_mcp.core.gbnf_compiler import GBNFCompiler
+    from octave_mcp.core.parser import parse
+    from octave_mcp.core.schema_extractor import extract_schema_from_document
+    sd = extract_schema_from_document(parse(sl.schema_text("NEUTRAL", [("ZZQ", '"x"', "REQ")])))
+    out = set()
+    for env in (True, False):
+        rules, _ = gbnf.check(GBNFCompiler().compile_schema(sd, include_envelope=env))
+        out |= set(rules)
+    return sorted(n for n in out if n != "zzq")
+
+
 def run(ctx):
-    ctx.coverage["bounds"] = {"names": NAMES, "chains": CHAINS}
-    singles = [((n, c),) for n in NAMES for c in CHAINS]
+    dyn = [n.upper() for n in own_rule_names()]
+    ctx.coverage["bounds"] = {"names": NAMES, "chains": CHAINS, "own_rule_names_as_field_names": dyn}
+    singles = [((n, c),) for n in NAMES for c in CHAINS] + [((n, c),) for n in dyn if n not in NAMES for c in ("REQ", "ENUM[A,B]")]
     ctx.explore("single_field", singles, check_program, chunk=20)
     pairs = [((a, "REQ"), (b, "ENUM[X,Y]")) for a in NAMES for b in NAMES if a != b]
     ctx.explore("name_pairs", pairs, check_program, chunk=20)
